@@ -205,3 +205,97 @@ Proof.
   intros Hok. pose proof Hok as [_ [[Hw _] _]]. rewrite arc_points_spec by exact Hw.
   apply filter_sorted, points_sorted, Hok.
 Qed.
+
+(* ---- "inside the swept angle" as RAYS, and the recorded finding tiny_sweep_opposite_side ---------------
+   The direction of a radial ray is its normal turned back by 90 degrees: n = rotate_90 (c) = (-cy, cx).
+   For an Intersection sector (|sweep| < 180 deg) whose two rays are in proper position (det > 0: the left
+   ray is strictly counter-clockwise of the right ray, by less than 180 deg) every accepted point is in front
+   of at least one of the two rays.  When the sweep is below the resolution of the 1024-scaled normals
+   (both normals equal: det = 0) the intersection degenerates to the whole line through the centre and points
+   on the far side of the centre are accepted: finding `tiny_sweep_opposite_side` (known_findings.txt). *)
+Definition ray_dir (n : point) : point := P (py n) (- px n).
+Definition sm_det (a b : point) : Z := px a * py b - py a * px b.
+
+(* the class of inputs of the recorded finding, as a predicate on the plane sector *)
+Definition K18_tiny_sweep_opposite_side (ps : plane_sector) : bool :=
+  match ps_op ps with
+  | OpIntersection => sm_det (ps_right ps) (ps_left ps) <=? 0
+  | _ => false
+  end.
+
+Lemma cone_front (a b c d x y : Z) :
+  0 < a * d - b * c -> 0 <= a * y - b * x -> 0 <= x * d - y * c ->
+  0 <= a * x + b * y \/ 0 <= c * x + d * y.
+Proof.
+  intros HD HB HA.
+  destruct (Z_le_gt_dec 0 (a * x + b * y)) as [|H1]; [left; assumption|].
+  destruct (Z_le_gt_dec 0 (c * x + d * y)) as [|H2]; [right; assumption|].
+  exfalso.
+  set (D := a * d - b * c) in *. set (A := x * d - y * c) in *. set (B := a * y - b * x) in *.
+  set (R2 := a * a + b * b). set (L2 := c * c + d * d). set (S := a * c + b * d).
+  assert (E1 : D * (a * x + b * y) = A * R2 + B * S) by (subst D A B R2 S; ring).
+  assert (E2 : D * (c * x + d * y) = A * S + B * L2) by (subst D A B L2 S; ring).
+  assert (E3 : R2 * L2 - S * S = D * D) by (subst D R2 L2 S; ring).
+  assert (HR : 0 <= R2) by (subst R2; nia). assert (HL : 0 <= L2) by (subst L2; nia).
+  clearbody D A B R2 L2 S.
+  assert (F1 : A * R2 + B * S < 0) by (rewrite <- E1; apply Z.mul_pos_neg; lia).
+  assert (F2 : A * S + B * L2 < 0) by (rewrite <- E2; apply Z.mul_pos_neg; lia).
+  assert (G1 : 0 <= A * R2) by (apply Z.mul_nonneg_nonneg; lia).
+  assert (G2 : 0 <= B * L2) by (apply Z.mul_nonneg_nonneg; lia).
+  assert (F3 : (A * R2) * (B * L2) < (- (B * S)) * (- (A * S))).
+  { apply Z.mul_lt_mono_nonneg; lia. }
+  assert (F4 : A * B * (D * D) < 0).
+  { rewrite <- E3. replace (A * B * (R2 * L2 - S * S)) with ((A * R2) * (B * L2) - (- (B * S)) * (- (A * S))) by ring. lia. }
+  assert (0 <= A * B) by (apply Z.mul_nonneg_nonneg; lia).
+  assert (0 < D * D) by (apply Z.mul_pos_pos; lia).
+  assert (0 <= A * B * (D * D)) by (apply Z.mul_nonneg_nonneg; lia).
+  lia.
+Qed.
+
+Theorem sector_in_front_of_a_ray ps dl :
+  ps_op ps = OpIntersection -> K18_tiny_sweep_opposite_side ps = false ->
+  ps_contains ps dl = true ->
+  0 <= sm_dot dl (ray_dir (ps_right ps)) \/ 0 <= sm_dot dl (ray_dir (ps_left ps)).
+Proof.
+  unfold K18_tiny_sweep_opposite_side, ps_contains, sm_odist. intros Hop HK H. rewrite Hop in *. cbn [sm_exec] in H.
+  apply andb_prop in H. destruct H as [H1 H2]. apply Z.leb_le in H1, H2. apply Z.leb_gt in HK.
+  destruct ps as [[lx ly] [rx ry] o]. destruct dl as [x y].
+  unfold sm_dot, sm_det, ray_dir in *. cbn [ps_left ps_right px py] in *.
+  pose proof (cone_front ry (- rx) ly (- lx) x y) as C.
+  destruct C as [C|C]; [lia|lia|lia|left; lia|right; lia].
+Qed.
+
+(* the finding itself, machine-checked: start 0 deg, sweep 0 deg (normals exactly as the hook reports them),
+   doubled offset (-10, 0) = the point (0,5) of Sector (0,0) d=11: accepted although it is behind both rays *)
+Theorem sector_in_front_of_a_ray_refuted :
+  exists ps dl, ps_op ps = OpIntersection /\ K18_tiny_sweep_opposite_side ps = true /\
+    ps_contains ps dl = true /\
+    ~ (0 <= sm_dot dl (ray_dir (ps_right ps)) \/ 0 <= sm_dot dl (ray_dir (ps_left ps))).
+Proof.
+  exists (PS (P 0 1024) (P 0 1024) OpIntersection), (P (-10) 0).
+  repeat split; try reflexivity. vm_compute. intros [H|H]; apply H; reflexivity.
+Qed.
+
+(* the same for Sector::contains (hence, by sector_points_iff, for every point of points()) *)
+Definition in_front_of_a_ray (s : sector) (p : point) : Prop :=
+  0 <= sm_dot (sm_delta (se_center_2x s) p) (ray_dir (ps_right (se_ps s))) \/
+  0 <= sm_dot (sm_delta (se_center_2x s) p) (ray_dir (ps_left (se_ps s))).
+
+Theorem sector_front s p :
+  ps_op (se_ps s) = OpIntersection -> K18_tiny_sweep_opposite_side (se_ps s) = false ->
+  se_contains s p = true -> in_front_of_a_ray s p.
+Proof.
+  intros Hop HK H. rewrite se_contains_unfold in H. apply andb_prop in H. destruct H as [_ H].
+  apply sector_in_front_of_a_ray; assumption.
+Qed.
+
+(* Sector::new(Point::zero(), 11, 0.0.deg(), 0.0.deg()) contains (0,5), five pixels behind the centre *)
+Theorem sector_front_refuted :
+  exists s p, ps_op (se_ps s) = OpIntersection /\ K18_tiny_sweep_opposite_side (se_ps s) = true /\
+    In p (se_points s) /\ ~ in_front_of_a_ray s p.
+Proof.
+  exists (Sec (P 0 0) 11 (PS (P 0 1024) (P 0 1024) OpIntersection)), (P 0 5).
+  repeat split; try reflexivity.
+  - vm_compute. left. reflexivity.
+  - unfold in_front_of_a_ray. vm_compute. intros [H|H]; apply H; reflexivity.
+Qed.
